@@ -4,7 +4,7 @@
    C11 gives that (doc, position, size) decode from the reported id without loss. *)
 From Coq Require Import List NArith ZArith Bool Permutation.
 From BE Require Import Model.Scan Model.Build Model.Cursor Proofs.ScanProof Proofs.BuildProof Proofs.Glue Gen.IdsGen Proofs.IdsProof Proofs.Refine Proofs.ConcreteScan.
-From BE Require Model.GoVal Model.Index Model.Roaring Proofs.RoaringProof.
+From BE Require Model.GoVal Model.Parsers Model.Index Model.Roaring Proofs.RoaringProof Proofs.IndexBuildInv Proofs.IndexCorrect.
 Import ListNotations.
 Local Open Scope N_scope.
 
@@ -60,7 +60,27 @@ Theorem C04_roaring_raw_result_exact : forall b0 ds b os q s d k cj x,
   Roaring.bm_mem x (Roaring.sc_res s) = forallb (RoaringProof.conj_sat_field q cj) (Roaring.rb_conts b).
 Proof. exact RoaringProof.roaring_index_correct. Qed.
 
+(* END TO END over the executable model, both index types (`kind`), default-container fields, any parser
+   configuration: the recorded collector calls `hits` are exactly, once each, the satisfied conjunctions
+   of the accepted documents, each with the document id decoded from its conjunction id *)
+Theorem C04_collector_calls_exact_once : forall kind pol thr parsers ds st os q,
+  Index.add_documents false (Index.new_builder kind pol thr parsers) ds = (st, os) ->
+  Forall (eq Index.AddOk) os -> NoDup (map Index.d_id ds) ->
+  (forall d cj, In d ds -> In cj (Index.d_conjs d) -> NoDup (map fst cj)) ->
+  (pol <> Index.PolSkip \/ forall d cj, In d ds -> In cj (Index.d_conjs d) -> IndexBuildInv.conj_ok parsers cj = true) ->
+  NoDup (map fst q) ->
+  (forall f v, In (f, v) q -> exists ids, Parsers.parse_assign (parsers f) v = GoVal.POk ids) ->
+  exists hits,
+    Index.retrieve_hits (Index.build_index st) q = Index.ROk hits /\
+    NoDup (map snd hits) /\
+    (forall d k cj cid, IndexCorrect.has_conj ds d k cj cid ->
+       (In cid (map snd hits) <-> IndexCorrect.conj_sat parsers q cj = true)) /\
+    (forall h, In h hits -> fst h = ConjID_DocID (snd h) /\
+                            exists d k cj, IndexCorrect.has_conj ds d k cj (snd h)).
+Proof. exact IndexCorrect.index_correct. Qed.
+
 Print Assumptions C04_reported_conjunctions_exact_once.
+Print Assumptions C04_collector_calls_exact_once.
 Print Assumptions C04_concrete_kgroups_calls.
 Print Assumptions C04_concrete_compact_calls.
 Print Assumptions C04_roaring_raw_result_exact.
